@@ -34,12 +34,18 @@ LEVEL_NOTE = "Bounded: one chart shape per game with <=3 rows per list; coincide
 NOTES = [(500.0, 1, None), (1000.0, 0, None), (3000.0, 1, None), (2000.0, 2, 1000.0), (4000.0, 2, 500.0)]
 BPMS = [(0.0, 120.0), (2000.0, 60.0), (6000.0, 120.0)]
 SVS = [(100.0, 2.0), (2600.0, 0.5)]
+# second shape (thorough tier): a chord, three holds in two columns, two tempo points, three SVs
+NOTES2 = [(500.0, 0, None), (500.0, 3, None), (1500.0, 0, None), (2500.0, 3, None), (1000.0, 1, 500.0), (3000.0, 1, 250.0), (2000.0, 2, 2000.0)]
+BPMS2 = [(0.0, 90.0), (4000.0, 180.0)]
+SVS2 = [(250.0, 0.5), (1250.0, 1.5), (4500.0, 2.0)]
+SHAPE = [0]
 
 
 def base(game):
     from mc import starts
 
-    m = charts.make_map(game, NOTES, BPMS, SVS if game in ("osu", "qua") else (), meta=starts.game_extras(game, "plain"))
+    n, b, v = (NOTES, BPMS, SVS) if SHAPE[0] == 0 else (NOTES2, BPMS2, SVS2)
+    m = charts.make_map(game, n, b, v if game in ("osu", "qua") else (), meta=starts.game_extras(game, "plain"))
     if game == "osu":
         from reamber.osu.OsuSample import OsuSample
         from reamber.osu.lists import OsuSampleList
@@ -69,7 +75,7 @@ def permuted(game, perm, names, fresh):
 
 
 def bound(tier, seed):
-    return dict(games=list(charts.GAMES), rows=dict(hits=3, holds=2, bpms=3, svs=2), label_modes=["permuted labels", "fresh labels"], permutations_per_game={g: len(perms_of(base(g))[1]) for g in charts.GAMES})
+    return dict(games=list(charts.GAMES), shapes=[dict(hits=3, holds=2, bpms=3, svs=2)] + ([dict(hits=4, holds=3, bpms=2, svs=3, chord=True)] if tier == "thorough" else []), label_modes=["permuted labels", "fresh labels"], permutations_per_game={g: len(perms_of(base(g))[1]) for g in charts.GAMES})
 
 
 CHUNK = 12
@@ -77,10 +83,13 @@ CHUNK = 12
 
 def roots(tier, seed):
     rs = []
-    for g in charts.GAMES:
-        n = len(perms_of(base(g))[1])
-        for s in range(0, n, CHUNK):
-            rs.append(dict(game=g, start=s, stop=min(n, s + CHUNK)))
+    for shape in (0, 1) if tier == "thorough" else (0,):
+        SHAPE[0] = shape
+        for g in charts.GAMES:
+            n = len(perms_of(base(g))[1])
+            for s in range(0, n, CHUNK):
+                rs.append(dict(game=g, start=s, stop=min(n, s + CHUNK), shape=shape))
+    SHAPE[0] = 0
     return rs
 
 
@@ -189,7 +198,8 @@ _REF = {}
 
 def reference(game):
     """Results for the chart with every list in time order (fresh labels)."""
-    if game not in _REF:
+    game_key = (game, SHAPE[0])
+    if game_key not in _REF:
         names, _ = perms_of(base(game))
         m0 = base(game)
         order = tuple(tuple(sorted(range(len(m0.objs[k])), key=lambda i: m0.objs[k].offset.tolist()[i])) for k in names)
@@ -199,20 +209,24 @@ def reference(game):
                 out[lab] = ("ok", fn(permuted(game, order, names, True)))
             except Exception as e:
                 out[lab] = ("exc", type(e).__name__)
-        _REF[game] = (order, out)
-    return _REF[game]
+        _REF[game_key] = (order, out)
+    return _REF[game_key]
 
 
 def explore(root, tier, ctx):
     g = root["game"]
+    SHAPE[0] = root.get("shape", 0)
     names, ps = perms_of(base(g))
     for i in range(root["start"], root["stop"]):
         for fresh in (False, True):
             check_perm(g, i, fresh, ctx)
+    SHAPE[0] = 0
 
 
 def replay(case, ctx):
+    SHAPE[0] = case.get("shape", 0)
     check_perm(case["game"], case["perm_index"], case["fresh"], ctx, only=case.get("op"))
+    SHAPE[0] = 0
 
 
 def check_perm(g, i, fresh, ctx, only=None):
@@ -220,11 +234,11 @@ def check_perm(g, i, fresh, ctx, only=None):
     perm = ps[i]
     order, ref = reference(g)
     unsorted_lists = [k for k, p, o in zip(names, perm, order) if tuple(p) != tuple(o)]
-    ctx.state(("c15", g, perm, fresh), nontrivial=bool(unsorted_lists))
+    ctx.state(("c15", g, SHAPE[0], perm, fresh), nontrivial=bool(unsorted_lists))
     for lab, fn in ops_for(g):
         if only and lab != only:
             continue
-        case = dict(game=g, perm_index=i, perm={k: list(p) for k, p in zip(names, perm)}, fresh=fresh, op=lab)
+        case = dict(game=g, shape=SHAPE[0], perm_index=i, perm={k: list(p) for k, p in zip(names, perm)}, fresh=fresh, op=lab)
         site = dict(game=g, op=lab)
         ctx.transition()
         ctx.case()
